@@ -122,6 +122,8 @@ func runC08(c *an.Ctx) {
 	c.Min("R08.7", 2)
 	r165held(c, "R08.8") // include-driven removals and re-adds under a configured equivalence (shared with R16.5)
 	c.Min("R08.8", 2)
+	r028(c, "R08.11") // a create that lost the race is noticed, not committed over the winner: the second ADD (old value nil) would otherwise be judged by the predicate against nothing and the subscriber keep the overwritten item (shared with R02.8)
+	c.Min("R08.11", 2)
 	r0810(c, "R08.10")
 	c.Min("R08.10", 5)
 	r089(c, "R08.9")
